@@ -5097,3 +5097,12 @@ impl Point {
         Self { X: c[0], S: c[1], Z: c[2], T: c[3] }
     }
 }
+
+#[cfg(crrl_verif)]
+impl Point {
+    /// Access to the private map (field element to group element) used by
+    /// `hash_to_curve()`.
+    pub fn verif_map_to_curve(f: &GFb254) -> Self {
+        Self::map_to_curve(f)
+    }
+}
